@@ -1,5 +1,5 @@
 """C29 Cache-Control directives parse and re-serialise faithfully."""
-import os
+import os, re
 from vf.util import VERIF, hx, unhx
 from vf.harness import ProcHarness
 
@@ -7,9 +7,61 @@ ID = "C29"
 PROP_MODULE = "SquidModel.Properties.C29"
 MODEL = "c29"
 GEN = ["cc_directives"]
+MAX_REPORT = 150
+MINIMISE_BUDGET = 120
+RULE = ("p <hex>: HttpHdrCc::parse on a NUL-free field value (< 64 KB), state read through the accessors, packInto, parse of the packed "
+        "text; judged by a python reference written from the RFC 9111 grammar and the property text (first occurrence wins, numeric "
+        "argument = 1*DIGIT <= INT32_MAX else absent, quoted-string field lists unescaped, unknown directives kept verbatim in order) "
+        "and by re-parse == first parse. i/n/q <hex>: strListGetItem / httpHeaderParseInt / httpHeaderParseQuotedString alone "
+        "(exhaustive small alphabets; model correspondence + reference on the strictly valid subset). "
+        "non-trivial = a p case in which parse recorded at least one directive; distinct = distinct input lines")
+TRUSTED = ["modelled, not verified: glibc atoi = (int)strtol(s, NULL, 10) with clamping (the C standard leaves overflow undefined), "
+           "String/MemBuf/appendf as byte-list append and %d/%s formatting, LookupTable as case-insensitive last-match lookup over attrsList",
+           "python reference lexer/oracle in props/C29.py (RFC 9111 section 5.2 grammar, RFC 9110 quoted-string)"]
+ASSUMPTIONS = ["field values are C strings (no NUL) shorter than 65535 octets (SquidString limit); each parse starts from a freshly "
+               "constructed HttpHdrCc (as HttpHeader::getCc does)",
+               "C locale (isspace/isdigit/tolower sets are regenerated from the running code)"]
+MANIFEST = {
+    "text": "partial: (finding) the code violates the statement on five input classes, each proved as a counterexample theorem and "
+            "re-confirmed on the real code every run; outside them the theorems hold for every field value",
+    "note": "",
+    "technique": "Lean 4 proofs over a branch-by-branch model of parse/packInto/strListGetItem/atoi/quoted-string + table translator + "
+                 "ASan/UBSan differential run with an RFC-grammar reference oracle",
+}
 
 UNDER_TEST = ["src/HttpHdrCc.cc", "src/StrList.cc", "src/HttpHeaderTools.cc", "src/HttpHeader.cc"]
 DROP = ("HttpHdrCc.o", "StrList.o", "HttpHeaderTools.o", "HttpHeader.o")
+
+
+def link_direct(stage, test, objs, out):
+    """the tree's link recipe for `test` without the libtool wrapper: convenience libraries X.la -> .libs/X.a (none of them has
+    dependency_libs), the test's own object -> objs, sanitizer-built copies instead of DROP"""
+    import shlex, subprocess
+    toks = shlex.split(stage.link_recipe(test))
+    while toks and not toks[0].startswith("g++"):
+        toks.pop(0)
+    res, skip = [], False
+    for tk in toks:
+        if skip:
+            skip = False
+            continue
+        if tk == "-o":
+            res += ["-o", out]
+            skip = True
+        elif tk in (test + ".o", test + ".lo"):
+            res += list(objs)
+        elif tk in DROP or tk == "-Werror":
+            continue
+        elif tk.endswith(".la"):
+            d, b = os.path.split(tk)
+            res.append(os.path.join(d, ".libs", b[:-3] + ".a"))
+        else:
+            res.append(tk)
+    res += ["-fsanitize=address,undefined"]
+    r = subprocess.run(res, cwd=os.path.join(stage.repo, "src"), capture_output=True, text=True)
+    if r.returncode != 0 or not os.path.exists(out):
+        raise RuntimeError(r.stderr[-3000:])
+    return out
 
 
 def build_exe(stage):
@@ -18,11 +70,697 @@ def build_exe(stage):
         built = stage.built = {}
     if "c29" in built:
         return built["c29"]
-    objs = [stage.compile(os.path.join(VERIF, "harness", "c29.cc"))] + stage.compile_many(UNDER_TEST)
-    exe = stage.link_like("tests/testHttpReply", objs, os.path.join(stage.work, "c29"), drop=DROP)
+    # the harness TU defines `Config` (as the recipe's test program does); vptr checks there would need typeinfo of Store::Disk
+    objs = [stage.compile(os.path.join(VERIF, "harness", "c29.cc"), extra=["-fno-sanitize=vptr"])] + stage.compile_many(UNDER_TEST)
+    out = os.path.join(stage.work, "c29")
+    try:
+        exe = link_direct(stage, "tests/testHttpReply", objs, out)
+    except Exception:   # the tree's own way (slow under load: libtool is a shell script)
+        exe = stage.link_like("tests/testHttpReply", objs, out, drop=DROP)
     built["c29"] = exe
     return exe
 
 
+def harness_env():
+    return {"UBSAN_OPTIONS": "print_stacktrace=0:halt_on_error=1:exitcode=86",
+            "ASAN_OPTIONS": "detect_leaks=0:abort_on_error=0:exitcode=86:allocator_may_return_null=1", "LC_ALL": "C"}
+
+
 def build(stage):
-    return ProcHarness([build_exe(stage)], env={"UBSAN_OPTIONS": "print_stacktrace=0:halt_on_error=1:exitcode=86"})
+    return ProcHarness([build_exe(stage)], env=harness_env())
+
+
+# ----------------------------------------------------------------------------------------------------------------------
+# reference (RFC 9111 section 5.2, RFC 9110 section 5.6): written from the grammar and the property text, not from the code
+# ----------------------------------------------------------------------------------------------------------------------
+INT32_MAX = 2 ** 31 - 1
+MAX_STALE_ANY = INT32_MAX   # "max-stale" without a value: any staleness (HttpHdrCc.h MAX_STALE_ANY); a representation choice
+FLAGS = ["public", "no-store", "no-transform", "must-revalidate", "proxy-revalidate", "only-if-cached", "immutable"]
+NUMERIC = {"max-age": "ma", "s-maxage": "sm", "max-stale": "ms", "min-fresh": "mf", "stale-if-error": "sie"}
+LISTS = {"private": "priv", "no-cache": "nc"}
+KNOWN = set(FLAGS) | set(NUMERIC) | set(LISTS)
+C_SPACE = b" \t\n\x0b\x0c\r"
+
+TOKEN = rb"[!#$%&'*+\-.^_`|~0-9A-Za-z]+"
+QS = rb'"(?:[\t \x21\x23-\x5b\x5d-\x7e\x80-\xff]|\\[\t \x21-\x7e\x80-\xff])*"'
+QS_RE = re.compile(QS)
+DIGITS_RE = re.compile(rb"[0-9]+")
+ATOI_RE = re.compile(rb"[ \t\n\x0b\x0c\r]*([+-]?)([0-9]+)")
+
+
+def split_elements(v):
+    """top-level split at commas; a DQUOTE opens a quoted-string in which backslash escapes the next octet"""
+    elems, cur, q, i = [], bytearray(), False, 0
+    while i < len(v):
+        c = v[i]
+        if q:
+            if c == 0x5C and i + 1 < len(v):
+                cur += v[i:i + 2]
+                i += 2
+                continue
+            if c == 0x22:
+                q = False
+            cur.append(c)
+        else:
+            if c == 0x2C:
+                elems.append(bytes(cur))
+                cur = bytearray()
+                i += 1
+                continue
+            if c == 0x22:
+                q = True
+            cur.append(c)
+        i += 1
+    elems.append(bytes(cur))
+    return elems
+
+
+def has_ctl(e):
+    return any((b < 0x20 and b != 9) or b == 0x7F for b in e)
+
+
+def unescape_qs(qs):
+    body, out, i = qs[1:-1], bytearray(), 0
+    while i < len(body):
+        if body[i] == 0x5C:
+            out.append(body[i + 1])
+            i += 2
+        else:
+            out.append(body[i])
+            i += 1
+    return bytes(out)
+
+
+def name_arg(e):
+    if b"=" in e:
+        n, a = e.split(b"=", 1)
+        return n, a
+    return e, None
+
+
+def known_name(n):
+    k = n.lower().decode("latin-1")
+    return k if k in KNOWN else None
+
+
+def reference(v):
+    """-> (expected, unspecified): expected = {'flags': set, 'num': {k: int}, 'priv': bytes|None, 'nc': bytes|None, 'other': [bytes]};
+    unspecified = set of directive names (or 'other') the property text says nothing about for this input"""
+    exp = {"flags": set(), "num": {}, "priv": None, "nc": None, "other": []}
+    unspec, done = set(), set()
+    for raw in split_elements(v):
+        e = raw.strip(b" \t")
+        if not e:
+            continue
+        if has_ctl(e):
+            core = e.strip(C_SPACE)
+            if not core:
+                continue            # an element of white-space controls only: nothing is present
+            k = known_name(name_arg(core)[0])
+            unspec.add(k or "other")
+            continue
+        n, a = name_arg(e)
+        k = known_name(n)
+        if k is None:
+            exp["other"].append(e)
+            continue
+        if k in done or k in unspec:
+            continue                # first occurrence wins
+        if k in NUMERIC:
+            if a is not None and DIGITS_RE.fullmatch(a) and int(a) <= INT32_MAX:
+                exp["num"][k] = int(a)
+                done.add(k)
+            elif k == "max-stale":  # the value is optional: an invalid value is treated as absent
+                exp["num"][k] = MAX_STALE_ANY
+                done.add(k)
+            # else: invalid numeric value = directive absent; a later occurrence may still count
+        elif k in LISTS:
+            if a is None:
+                exp[LISTS[k]] = b""
+                done.add(k)
+            elif QS_RE.fullmatch(a):
+                exp[LISTS[k]] = unescape_qs(a)
+                done.add(k)
+            else:
+                unspec.add(k)       # token form / malformed argument: outside "quoted field lists"
+        else:
+            if a is None:
+                exp["flags"].add(k)
+                done.add(k)
+            else:
+                unspec.add(k)       # a flag with an argument
+    return exp, unspec
+
+
+STATE_RE = re.compile(r"ok=([01]) flags=(\S+) ma=(\S+) sm=(\S+) ms=(\S+) mf=(\S+) sie=(\S+) priv=(\S+) nc=(\S+) other=(\S+)$")
+
+
+def parse_state(text):
+    m = STATE_RE.match(text.strip())
+    if not m:
+        return None
+    g = m.groups()
+    flags = set() if g[1] == "-" else set(g[1].split(","))
+    st = {"ok": int(g[0]), "flags": flags, "num": {}, "priv": None if g[7] == "~" else unhx(g[7]),
+          "nc": None if g[8] == "~" else unhx(g[8]), "other": unhx(g[9])}
+    for k, val in zip(["max-age", "s-maxage", "max-stale", "min-fresh", "stale-if-error"], g[2:7]):
+        if val != "-":
+            st["num"][k] = int(val)
+    return st
+
+
+def split_impl(impl):
+    """-> (state1, packed bytes, state2) or None"""
+    try:
+        first, second = impl.split(" || ")
+        s1, pk = first.rsplit(" pack=", 1)
+        a, b = parse_state(s1), parse_state(second)
+        if a is None or b is None:
+            return None
+        return a, unhx(pk), b
+    except ValueError:
+        return None
+
+
+def mismatches_p(v, impl):
+    """list of tagged mismatches between the implementation's observation and the reference"""
+    sp = split_impl(impl)
+    if sp is None:
+        return ["format: unparsable output " + impl[:120]]
+    st, packed, st2 = sp
+    exp, unspec = reference(v)
+    out = []
+    for k in FLAGS:
+        if k not in unspec and (k in st["flags"]) != (k in exp["flags"]):
+            out.append("flag:%s expected %s got %s" % (k, k in exp["flags"], k in st["flags"]))
+    for k in NUMERIC:
+        if k in unspec:
+            continue
+        want, got = exp["num"].get(k), st["num"].get(k)
+        if want != got or (k in st["flags"]) != (want is not None):
+            out.append("num:%s expected %s got %s" % (k, "-" if want is None else want, "-" if got is None else got))
+    for k, f in LISTS.items():
+        if k in unspec:
+            continue
+        if exp[f] != st[f] or (k in st["flags"]) != (exp[f] is not None):
+            out.append("list:%s expected %s got %s" % (k, "~" if exp[f] is None else hx(exp[f]), "~" if st[f] is None else hx(st[f])))
+    if "other" not in unspec and st["other"] != b", ".join(exp["other"]):
+        out.append("other: expected %s got %s" % (hx(b", ".join(exp["other"])), hx(st["other"])))
+    if "other" in st["flags"] and not st["other"]:
+        out.append("flag:other set without text")
+    present = bool(exp["flags"] or exp["num"] or exp["priv"] is not None or exp["nc"] is not None or exp["other"])
+    if present and not st["ok"]:
+        out.append("ok: parse reports failure although directives are present")
+    if not present and not unspec and st["ok"]:
+        out.append("ok: parse reports success although no directive is present")
+    if st["ok"] != (1 if st["flags"] else 0):
+        out.append("ok: return value disagrees with isSet()")
+    # re-serialise: the packed text must parse to the same directives
+    for key in ("ok", "flags", "num", "priv", "nc", "other"):
+        if st[key] != st2[key]:
+            out.append("roundtrip:%s first %r, after pack+parse %r" % (key, st[key], st2[key]))
+            break
+    return out
+
+
+# ---- the classes of inputs on which the real code is known to violate the statement (known_findings.d/C29.json) ----
+def atoi_value(a):
+    """what glibc atoi + the int conversion make of the argument (used only to recognise the known defect's signature)"""
+    m = ATOI_RE.match(a)
+    if not m:
+        return None
+    mag = int(m.group(2))
+    val = -mag if m.group(1) == b"-" else mag
+    val = max(-2 ** 63, min(2 ** 63 - 1, val))
+    val = (val + 2 ** 31) % 2 ** 32 - 2 ** 31
+    return val
+
+
+def numeric_region(a):
+    """'wrap' | 'lenient' | None for the argument text of a numeric directive"""
+    if a is None:
+        return None
+    if DIGITS_RE.fullmatch(a):
+        return "wrap" if int(a) > INT32_MAX and atoi_value(a) >= 0 else None
+    v = atoi_value(a)
+    if v is None or v < 0:
+        return None
+    if v == 0 and not a[:1].isdigit():
+        return None
+    return "lenient"
+
+
+def regions(v):
+    """the known-finding classes this field value falls into (by its text alone)"""
+    res = set()
+    elems = [e for e in (r.strip(b" \t") for r in split_elements(v)) if e]
+    anything_known = False
+    for idx, e in enumerate(elems):
+        core = e.strip(C_SPACE)
+        if not core:
+            # white-space controls only; strListGetItem skips SP HT CR LF and ',' in front, so VT/FF must lead what is left
+            lead = e.lstrip(b" \t\r\n")
+            if lead and idx + 1 < len(elems):
+                res.add("C29-vt-item-ends-list")
+            continue
+        n, a = name_arg(core if has_ctl(e) else e)
+        k = known_name(n)
+        if k:
+            anything_known = True
+        if k in NUMERIC:
+            r = numeric_region(a)
+            if r == "wrap":
+                res.add("C29-numeric-wraps")
+            elif r == "lenient":
+                res.add("C29-numeric-lenient")
+        if k in LISTS and a is not None and QS_RE.fullmatch(a):
+            body = a[1:-1]
+            i = 0
+            while i < len(body):
+                if body[i] == 0x5C:
+                    if body[i + 1] in (0x22, 0x5C):
+                        res.add("C29-quoted-pair")
+                    if body[i + 1] == 9:
+                        res.add("C29-htab-in-quoted-string")
+                    i += 2
+                else:
+                    if body[i] == 9:
+                        res.add("C29-htab-in-quoted-string")
+                    i += 1
+    if elems and not anything_known and any(e.strip(C_SPACE) for e in elems):
+        res.add("C29-other-only-dropped")
+    return res
+
+
+def explained(tag, v, impl, regs):
+    kind = tag.split(":", 1)[0]
+    if "C29-vt-item-ends-list" in regs and kind in ("flag", "num", "list", "other", "ok"):
+        return "C29-vt-item-ends-list"
+    if kind == "num":
+        if "C29-numeric-wraps" in regs:
+            return "C29-numeric-wraps"
+        if "C29-numeric-lenient" in regs:
+            return "C29-numeric-lenient"
+    if kind == "list":
+        if "C29-quoted-pair" in regs:
+            return "C29-quoted-pair"
+        if "C29-htab-in-quoted-string" in regs:
+            return "C29-htab-in-quoted-string"
+    if kind in ("ok", "roundtrip"):
+        sp = split_impl(impl)
+        if sp and sp[0]["ok"] == 0 and sp[0]["other"]:
+            return "C29-other-only-dropped"
+    return None
+
+
+def classify(line, impl, why):
+    w = line.split(" ")
+    if w[0] != "p" or len(w) != 2:
+        return None
+    try:
+        v = unhx(w[1])
+    except ValueError:
+        return None
+    regs = regions(v)
+    if not regs:
+        return None
+    if not why or why.startswith("model and implementation differ"):
+        # correspondence break inside a known class (the model follows the unrepaired code; a candidate fix changes the implementation)
+        return sorted(regs)[0]
+    ids = []
+    for tag in mismatches_p(v, impl):
+        fid = explained(tag, v, impl, regs)
+        if fid is None:
+            return None
+        ids.append(fid)
+    return ids[0] if ids else None
+
+
+def oracle(line, impl):
+    w = line.split(" ")
+    if impl.startswith("abort:"):
+        return "sanitizer/abort: " + impl
+    if impl == "bad-op":
+        return None
+    try:
+        if w[0] == "p":
+            ms = mismatches_p(unhx(w[1]), impl)
+            return "; ".join(ms[:6]) if ms else None
+        if w[0] == "i":
+            v = unhx(w[1])
+            if has_ctl(v):
+                return None
+            want = [e for e in (r.strip(b" \t") for r in split_elements(v)) if e]
+            got = impl.split(" ")
+            if int(got[0]) != len(want) or [unhx(x) for x in got[1:]] != want:
+                return "list items differ from the reference split: expected %s" % " ".join(hx(x) for x in want)
+            return None
+        if w[0] == "n":
+            v = unhx(w[1])
+            if DIGITS_RE.fullmatch(v) and int(v) <= INT32_MAX:
+                return None if impl == "ok %d" % int(v) else "valid decimal %s parsed as %s" % (v.decode(), impl)
+            if atoi_value(v) is None:
+                return None if impl == "fail" else "text without a number accepted: " + impl
+            return None     # lenient / overflowing spellings: judged at the directive level (p)
+        if w[0] == "q":
+            n, v = int(w[1]), unhx(w[2])
+            body = v[:n]
+            if QS_RE.fullmatch(body) and b"\t" not in body and b'\\"' not in body and b"\\\\" not in body:
+                want = "ok " + hx(unescape_qs(body))
+                return None if impl == want else "quoted-string %s parsed as %s, expected %s" % (hx(body), impl, want)
+            if not body.startswith(b'"') or body.count(b'"') < 2:
+                return None if impl == "fail" else "text that is not a quoted-string accepted: " + impl
+            return None
+    except (ValueError, IndexError) as e:
+        return "unparsable output %s (%s)" % (impl[:100], e)
+    return None
+
+
+# ----------------------------------------------------------------------------------------------------------------------
+# generators
+# ----------------------------------------------------------------------------------------------------------------------
+NAMES = sorted(KNOWN)
+EXT_NAMES = [b"foo", b"stale-while-revalidate", b"community", b"x", b"no-cach", b"max-agee", b"Other", b"post-check", b"pre-check",
+             b"must-understand", b"private2", b"public-ish"]
+FIELD_NAMES = [b"set-cookie", b"Set-Cookie", b"x-a", b"X-B", b"authorization", b"etag", b"a", b"b"]
+BOUNDARY_NUMS = [0, 1, 9, 10, 99, 100, 86400, 31536000, 2 ** 31 - 2, 2 ** 31 - 1, 2 ** 31, 2 ** 31 + 1, 2 ** 32 - 1, 2 ** 32, 2 ** 32 + 1,
+                 2 ** 32 + 2 ** 31 - 1, 2 ** 32 + 2 ** 31, 2 ** 33, 2 ** 63 - 1, 2 ** 63, 2 ** 63 + 1, 2 ** 64 - 1, 2 ** 64, 2 ** 64 + 5,
+                 10 ** 19, 10 ** 20, 10 ** 40, 4294967297, 8589934592 + 77]
+
+
+def rcase(rng, name):
+    k = rng.below(4)
+    if k == 0:
+        return name
+    if k == 1:
+        return name.upper()
+    if k == 2:
+        return name.title()
+    return bytes((c ^ 0x20) if (65 <= (c & ~0x20) <= 90 and rng.chance(1, 2)) else c for c in name)
+
+
+def valid_number(rng):
+    k = rng.below(6)
+    if k == 0:
+        return rng.choice([0, 1, 60, 3600, 86400, 31536000])
+    if k == 1:
+        return rng.range(0, 1000)
+    if k == 2:
+        return INT32_MAX - rng.below(3)
+    return rng.below(INT32_MAX + 1)
+
+
+def field_list(rng):
+    n = rng.range(0, 4)
+    sep = rng.choice([b",", b", ", b" , ", b",  "])
+    return sep.join(rng.choice(FIELD_NAMES) for _ in range(n))
+
+
+def quote(rng, raw, pairs):
+    """quoted-string spelling of raw; pairs: also use quoted-pairs for octets that do not need one"""
+    out = bytearray(b'"')
+    for c in raw:
+        if c in (0x22, 0x5C) or (pairs and rng.chance(1, 6) and c not in (9,)):
+            out.append(0x5C)
+        out.append(c)
+    out.append(0x22)
+    return bytes(out)
+
+
+def valid_directive(rng):
+    """one directive of the grammar the property speaks about (never inside a known-finding class)"""
+    k = rng.below(10)
+    if k < 3:
+        return rcase(rng, rng.choice(FLAGS).encode())
+    if k < 6:
+        name = rng.choice(sorted(NUMERIC)).encode()
+        if name == b"max-stale" and rng.chance(1, 3):
+            return rcase(rng, name)
+        digits = str(valid_number(rng)).encode()
+        if rng.chance(1, 8):
+            digits = b"0" * rng.range(1, 12) + digits      # leading zeros: still 1*DIGIT
+        return rcase(rng, name) + b"=" + digits
+    if k < 8:
+        name = rng.choice(sorted(LISTS)).encode()
+        if rng.chance(1, 3):
+            return rcase(rng, name)
+        raw = field_list(rng)
+        if rng.chance(1, 6):
+            raw = bytes(rng.choice(b"abc xyz-_;=/\x80\xfe~!") for _ in range(rng.range(0, 12)))
+        return rcase(rng, name) + b"=" + quote(rng, raw, rng.chance(1, 4))
+    name = rng.choice(EXT_NAMES)
+    j = rng.below(4)
+    if j == 0:
+        return name
+    if j == 1:
+        return name + b"=" + rng.choice([b"1", b"abc", b"5x", b"0", b"99999999999"])
+    if j == 2:
+        return name + b"=" + quote(rng, field_list(rng), False)
+    return name + b'="a, b\\"c,\\\\d"'
+
+
+def render_list(rng, ds):
+    out = bytearray()
+    if rng.chance(1, 10):
+        out += rng.choice([b" ", b",", b", ,", b"\t"])
+    for i, d in enumerate(ds):
+        if i:
+            out += rng.choice([b", ", b",", b" ,", b" , ", b",,", b", , ", b",\t", b"  ,  "])
+        out += d
+    if rng.chance(1, 10):
+        out += rng.choice([b" ", b",", b" ,", b"\t ", b", "])
+    return bytes(out)
+
+
+def valid_value(rng):
+    n = rng.choice([1, 1, 2, 2, 3, 3, 4, 5, 6, 8, 12])
+    ds = [valid_directive(rng) for _ in range(n)]
+    if rng.chance(1, 3) and ds:   # duplicates, possibly with another spelling / value
+        for _ in range(rng.range(1, 3)):
+            d = rng.choice(ds)
+            nm = name_arg(d)[0]
+            alt = valid_directive(rng)
+            ds.insert(rng.below(len(ds) + 1), rng.choice([d, rcase(rng, nm), alt if name_arg(alt)[0].lower() == nm.lower() else d]))
+    return render_list(rng, ds)
+
+
+def boundary_value(rng):
+    """numeric limits and odd spellings, quoted-string corner cases; some fall into known-finding classes (capped by cases())"""
+    k = rng.below(8)
+    name = rng.choice(sorted(NUMERIC)).encode()
+    if k == 0:
+        arg = str(rng.choice(BOUNDARY_NUMS)).encode()
+    elif k == 1:
+        arg = str(rng.choice(BOUNDARY_NUMS) + rng.range(-2, 2) if rng.chance(1, 2) else rng.below(2 ** 66)).encode().lstrip(b"-")
+    elif k == 2:
+        arg = rng.choice([b"", b"-0", b"-1", b"+1", b"+0", b" 1", b"1 ", b"\t7", b"0x10", b"1e3", b"1.5", b"\xd9\xa1", b"--1", b"+-1", b"1-", b'"5"',
+                          b"'5'", b"5,6", b"0000", b"00000000000000000000001", b"-2147483648", b"-4294967295", b"-4294967297",
+                          b"-9223372036854775808", b"-9223372036854775809", b"-99999999999999999999", b"9" * 30, b"abc", b"=5", b"5=5"])
+    elif k == 3:
+        lst = rng.choice(sorted(LISTS)).encode()
+        arg = rng.choice([b'""', b'"', b'"a', b'a"', b'"a"b', b'"a""b"', b'"a\\"b"', b'"a\\\\b"', b'"\\\\"', b'"\\""', b'"a\\', b'"a\\b"', b'"\\a\\b\\c"',
+                          b'"a\tb"', b'"a\\\tb"', b'"a b"', b'" a "', b'"a,b"', b'"a, b", c', b"'a'", b'"a\x7fb"', b'"a\x01b"', b'"a\x80b"',
+                          b'"\xff"', b'"a\r\n b"', b'"a\n b"', b'"a\r b"', b'"a\nb"', b'"a\r\n\tb"', b' "a"', b'"a" ', b"a", b"a b", b""])
+        rest = rng.choice([b"", b", public", b", max-age=5", b", foo"])
+        return (lst + b"=" + arg + rest) if rng.chance(3, 4) else (b"no-store, " + lst + b"=" + arg + rest)
+    elif k == 4:   # first invalid, second valid and the other way round
+        a, b = rng.choice([b"x", b"", b"-5", b"2147483648"]), str(valid_number(rng)).encode()
+        pair = [name + b"=" + a, name + b"=" + b]
+        if rng.chance(1, 2):
+            pair.reverse()
+        return b", ".join(pair + [b"public"] * rng.below(2))
+    elif k == 5:   # long values (the String limit is 65535)
+        n = rng.choice([200, 4000, 30000, 65000])
+        if rng.chance(1, 2):
+            return b"private=" + quote(rng, bytes(rng.choice(b"abcdefgh, -") for _ in range(n)), False) + b", max-age=1"
+        return render_list(rng, [valid_directive(rng) for _ in range(n // 12)])[:65000]
+    elif k == 6:   # white space / control octets around and inside elements
+        ws = rng.choice([b"\x0b", b"\x0c", b"\r", b"\n", b"\r\n", b"\x0b\x0c", b"\t", b"  ", b"\x01", b"\x7f"])
+        forms = [b"public," + ws + b",no-store", b"public" + ws + b", no-store", ws + b"public, max-age=3", b"public, max-age=3" + ws,
+                 b"max-age=" + ws + b"3, public", b"max-age" + ws + b"=3, public", b"pub" + ws + b"lic, no-store",
+                 b"foo" + ws + b", bar, public", b"public, " + ws]
+        return rng.choice(forms)
+    else:
+        return name + b"=" + str(rng.choice(BOUNDARY_NUMS)).encode() + rng.choice([b"", b"x", b" ", b";q=1", b".0"])
+    tail = rng.choice([b"", b", public", b", no-store, foo=1"])
+    return rcase(rng, name) + b"=" + arg + tail
+
+
+def mutate(rng, v):
+    v = bytearray(v)
+    for _ in range(rng.range(1, 3)):
+        k = rng.below(7)
+        if k == 0 and v:
+            v[rng.below(len(v))] ^= 1 << rng.below(8)
+        elif k == 1 and v:
+            del v[rng.below(len(v)):]                       # truncation
+        elif k == 2 and v:
+            i = rng.below(len(v)); j = rng.range(i, min(len(v), i + 8))
+            v[i:i] = v[i:j]                                 # duplication
+        elif k == 3 and v:
+            i = rng.below(len(v)); j = rng.range(i, min(len(v), i + 6))
+            del v[i:j]                                      # deletion
+        elif k == 4:
+            v.insert(rng.below(len(v) + 1), rng.choice(b'",\\= \t=",;\x0b\r\n0129-+'))
+        elif k == 5:
+            other = valid_value(rng)
+            i = rng.below(len(v) + 1)
+            v[i:] = other[rng.below(len(other) + 1):]       # splice
+        else:
+            v = bytearray(bytes(v).replace(b", ", rng.choice([b",", b" ,", b";", b", ,"]), 1))
+    return bytes(v).replace(b"\0", b"0")
+
+
+def strings_over(alphabet, maxlen):
+    def rec(prefix, n):
+        if n == 0:
+            yield prefix
+            return
+        for c in alphabet:
+            yield from rec(prefix + bytes([c]), n - 1)
+    for n in range(0, maxlen + 1):
+        yield from rec(b"", n)
+
+
+class Capper:
+    """keeps the number of cases inside known-finding classes small: run.py examines every failing case one by one"""
+
+    def __init__(self, per_class):
+        self.per_class = per_class
+        self.count = {}
+
+    def admit(self, v):
+        regs = regions(v)
+        if not regs:
+            return True
+        if any(self.count.get(r, 0) >= self.per_class for r in regs):
+            return False
+        for r in regs:
+            self.count[r] = self.count.get(r, 0) + 1
+        return True
+
+
+def cases(rng, tier):
+    thorough = tier == "thorough"
+    cap = Capper(8 if thorough else 5)
+    seen = set()
+
+    def emit(op, v, *pre):
+        line = " ".join([op] + [str(x) for x in pre] + [hx(v)])
+        if line in seen or b"\0" in v or len(v) >= 65535:
+            return None
+        if op == "p" and not cap.admit(v):
+            return None
+        seen.add(line)
+        return line
+
+    out = []
+
+    def add(op, v, *pre):
+        l = emit(op, v, *pre)
+        if l:
+            out.append(l)
+
+    # every known name alone, with a valid value, in three spellings; every name followed by each boundary number
+    for name in NAMES:
+        nb = name.encode()
+        for sp in (nb, nb.upper(), nb.title()):
+            add("p", sp)
+            add("p", sp + b"=7")
+            add("p", sp + b'="a, b"')
+            add("p", b"foo, " + sp + b", bar=1")
+    for name in sorted(NUMERIC):
+        for n in BOUNDARY_NUMS:
+            add("p", name.encode() + b"=" + str(n).encode() + b", public")
+    # grammar-directed valid lists
+    for _ in range(6000 if thorough else 1500):
+        add("p", valid_value(rng))
+    # boundary stream
+    for _ in range(2500 if thorough else 600):
+        add("p", boundary_value(rng))
+    # exhaustive small scopes
+    #  p: every string over a structural alphabet after "public, " (so that the result is never "no directive at all")
+    for s in strings_over(b'a=,"\\ ', 6 if thorough else 4):
+        add("p", b"public, " + s)
+    for s in strings_over(b'"\\a, ', 5 if thorough else 3):
+        add("p", b"no-store, private=" + s)
+        add("p", b"no-cache=" + s + b", immutable")
+    for s in strings_over(b"019-+ x", 4 if thorough else 2):
+        add("p", b"max-age=" + s + b", public")
+    #  i: the splitter alone
+    for s in strings_over(b'a,"\\ \x0b', 7 if thorough else 5):
+        add("i", s)
+    #  n: httpHeaderParseInt alone
+    for s in strings_over(b"019-+ x", 6 if thorough else 4):
+        add("n", s)
+    for n in BOUNDARY_NUMS:
+        for d in (-1, 0, 1):
+            for sign in (b"", b"-", b"+"):
+                add("n", sign + str(max(0, n + d)).encode())
+    #  q: httpHeaderParseQuotedString alone, every len
+    for s in strings_over(b'"\\a\t\r\n ', 5 if thorough else 3):
+        if s[:1] == b'"' or len(s) <= 1:
+            for n in range(len(s) + 1):
+                add("q", s, n)
+    # mutation stream (last: it lands in the known classes most often)
+    for _ in range(5000 if thorough else 1200):
+        base = valid_value(rng) if rng.chance(3, 4) else boundary_value(rng)
+        add("p", mutate(rng, base))
+    for _ in range(300 if thorough else 80):      # a little fully random
+        add("p", bytes(rng.range(1, 255) for _ in range(rng.range(0, 40))))
+        add("p", rng.bytes(rng.range(0, 24), b'max-age=,"\\ 0159privtnoch\t\x0b'))
+        v = rng.bytes(rng.range(0, 12), b'"\\ab \t\r\n\x01\x7f,')
+        add("q", b'"' + v, rng.range(0, len(v) + 1))
+        add("n", rng.bytes(rng.range(0, 24), b"0123456789 -+x\t"))
+        add("i", rng.bytes(rng.range(0, 30), b'ab,"\\ \t\x0b\r\n='))
+    return out
+
+
+def shrink(line):
+    w = line.split(" ")
+    if w[0] == "p" and len(w) == 2:
+        try:
+            if regions(unhx(w[1])):
+                return      # a witness of a known class: keep it as it is
+        except ValueError:
+            return
+    from vf.run import default_shrink
+    if w[0] == "q":
+        return              # len and text belong together
+    yield from default_shrink(line)
+
+
+def nontrivial(line, impl, model):
+    return line.startswith("p ") and impl.startswith("ok=1")
+
+
+def tag(line, impl, model):
+    w = line.split(" ")
+    if w[0] != "p":
+        return w[0] + (" ok" if impl.startswith("ok") else " fail" if impl == "fail" else " n=" + impl.split(" ")[0] if w[0] == "i" else " " + impl[:12])
+    try:
+        v = unhx(w[1])
+    except ValueError:
+        return "p bad"
+    regs = regions(v)
+    if regs:
+        return "p known-class " + sorted(regs)[0]
+    sp = split_impl(impl)
+    if sp is None:
+        return "p " + impl[:20]
+    st = sp[0]
+    feats = []
+    if st["num"]:
+        feats.append("num")
+    if st["priv"] or st["nc"]:
+        feats.append("list")
+    if st["other"]:
+        feats.append("other")
+    if st["flags"] & set(FLAGS):
+        feats.append("flag")
+    n = len([e for e in split_elements(v) if e.strip(C_SPACE)])
+    return "p %s items=%s %s" % ("ok" if st["ok"] else "none", "0" if n == 0 else "1" if n == 1 else "2-4" if n <= 4 else "5+", "+".join(feats) or "-")
+
+
+def exhaustive(tier):
+    return True   # the small-alphabet scopes listed in cases() are complete up to the tier's length
